@@ -3,6 +3,8 @@ import SSVerif.Proofs.LatticeBest
 import SSVerif.Proofs.LatticeAstar
 import SSVerif.Proofs.LatticeSemiring
 import SSVerif.Proofs.LatticeInt
+import SSVerif.Proofs.LatticeIntUpper
+import SSVerif.Proofs.LogTablesChecked
 import SSVerif.Proofs.LogAdd
 import SSVerif.Model.LogConfigs
 /-!
@@ -25,10 +27,15 @@ posterior of the best path — of any start→end path — is at most one *exact
 never returns less than its larger argument (`logmath_add` with the decoder's table:
 `C12_int_bestpath_posterior_dec`).
 
-**Partial:** that the integer link posteriors `alpha + beta - norm` exceed one by at most the
-accumulated table rounding is *not* proved (it needs the real-valued accuracy of the table along
-sums); it is checked on the implementation against a float64 reference with a bound accumulated per
-table addition (tools/props/c12.py).
+`C12_int_link_posterior_le` (instance `C12_int_link_posterior_dec`) bounds every integer link posterior
+from above: `alpha + beta − norm ≤ t[0] · (number of log-additions)`, an explicit function of the lattice
+(`|links| + Σ_links outdegree(target)` additions, `t[0] = 6932` for the decoder's table) — "posteriors lie
+between zero and one up to the log-add rounding bound" as a theorem in max-plus sandwich form, from
+`C19_logAdd_bounds` alone.
+
+**Partial:** the sharper accumulated bound (half a unit plus ε per addition, from the *accuracy* of the
+table, `C19_logAdd_is_rounded_log_of_sum`) is not proved; the check measures the deviation of alpha, beta
+and norm from a float64 reference against that sharper estimate as well as against the proved bound.
 -/
 namespace SSVerif.Lattice
 open SSVerif.Nfa
@@ -342,6 +349,108 @@ theorem C12_int_bestpath_posterior_dec (ok : LatticeOK G L) (sc : Link → Int)
   intro P
   exact C12_int_bestpath_posterior_le_one ok P (show SSVerif.LogAdd.cfgDec.lm.zero ≤ 0 by decide)
     (fun x y hx hy => SSVerif.LogAdd.max_le_logAdd SSVerif.LogAdd.cfgDec.lm hx hy) hnu ents hents
+
+/-- **C12, integer pass: link posteriors are at most one up to the accumulated log-add bound.**
+`P.ladd` is any log-add with `max x y ≤ ladd x y` (on non-zero arguments) and `ladd x y ≤ max x y + c`
+(`logmath_add`: `c = t[0]`, the rounded `log_B 2`, `C19_logAdd_bounds`), no path score underflows
+log-zero.  Then for every link the integer log posterior `alpha + beta − norm` that `ps_latlink_prob`
+returns exceeds 0 (probability one) by at most `c` times the number of log-additions the two passes
+perform on the way: one per link for the forward pass (each link is log-added into at most once per
+visited predecessor) plus `addsB`, the number of log-additions of the backward pass
+(`Σ_links outdegree(target)`; at most `|links|²`).  (In max-plus form: this bound needs only the
+`max`/`max + t[0]` sandwich of the table, not its accuracy; the sharper bound with half a unit per
+addition is what the check measures numerically.) -/
+theorem C12_int_link_posterior_le (ok : LatticeOK G L) (P : IntParams) {c : Int} (hc : 0 ≤ c) (hlz : P.lz ≤ 0)
+    (hge : ∀ x y, P.lz ≤ x → P.lz ≤ y → max x y ≤ P.ladd x y)
+    (hub : ∀ x y, P.ladd x y ≤ max x y + c)
+    (hnu : ∀ p v, Path L L.start p v → P.lz ≤ jointInt P p)
+    (hnuB : ∀ v q, Path L v q L.final → P.lz ≤ jointInt P q)
+    (ents : List Link) (hents : ∀ x, x ∈ ents ↔ x ∈ L.links ∧ x.dst = L.final) :
+    ∀ l ∈ L.links, alphaInt P L l + betaInt P L l - normInt P (alphaInt P L) ents
+      ≤ c * (L.links.length + addsB L (traverseEdges L) : Nat) ∧
+      addsB L (traverseEdges L) ≤ L.links.length * L.links.length := by
+  intro l hl
+  have dag := DagOK.of_latticeOK ok
+  obtain ⟨p, hp, hpa⟩ := alphaInt_le dag hc hlz hge hub (fun q x hw => hnu q x.dst hw.path.1) l hl
+  obtain ⟨q, hq, hqb⟩ := betaInt_le dag hc hub hnuB l hl
+  have hfull : Path L L.start (p ++ q) L.final := hp.path.1.append hq
+  have hne : p ++ q ≠ [] := by
+    intro h
+    have : p = [] := (List.append_eq_nil_iff.1 h).1
+    have h2 := hp.path.2
+    rw [this] at h2
+    simp at h2
+  have hj : jointInt P (p ++ q) = jointInt P p + jointInt P q := by simp [jointInt, List.sum_append]
+  have h0 := C12_int_bestpath_posterior_le_one ok P hlz hge hnu ents hents (p ++ q) hfull hne
+  constructor
+  · have : c * ((L.links.length + addsB L (traverseEdges L) : Nat) : Int)
+        = c * (L.links.length : Int) + c * (addsB L (traverseEdges L) : Int) := by
+      simp only [Int.natCast_add, Int.mul_add]
+    rw [this]; omega
+  · -- every out-degree is at most the number of links
+    have hperm := (traverse_topological dag).1
+    have : ∀ (xs : List Link), addsB L xs ≤ xs.length * L.links.length := by
+      intro xs
+      induction xs with
+      | nil => simp [addsB]
+      | cons x xs ih =>
+        rw [addsB_cons]
+        have : (exits L x.dst).length ≤ L.links.length := List.length_filter_le _ _
+        simp only [List.length_cons, Nat.succ_mul]; omega
+    have := this (traverseEdges L)
+    rwa [hperm.length_eq] at this
+
+/-- `logmath_add` never exceeds the larger argument by more than the first table entry — for all
+integers (the conditions of `C19_logAdd_bounds` are only needed for the lower side) -/
+theorem logAdd_le_max_add_t0_all {lm : SSVerif.LogAdd.LogMath} (tok : SSVerif.LogAdd.TableOK lm.table) (x y : Int) :
+    SSVerif.LogAdd.logAdd lm x y ≤ max x y + (SSVerif.LogAdd.tval lm.table 0 : Nat) := by
+  unfold SSVerif.LogAdd.logAdd
+  have h0 : (0 : Int) ≤ (SSVerif.LogAdd.tval lm.table 0 : Nat) := Int.natCast_nonneg _
+  have hle : ∀ d : Nat, ((lm.table.getD d 0 : Nat) : Int) ≤ (SSVerif.LogAdd.tval lm.table 0 : Nat) := by
+    intro d
+    have : SSVerif.LogAdd.tval lm.table d ≤ SSVerif.LogAdd.tval lm.table 0 := tok.anti_le (Nat.zero_le d)
+    exact Int.ofNat_le.2 this
+  by_cases h1 : x ≤ lm.zero
+  · rw [if_pos h1]; omega
+  · rw [if_neg h1]
+    by_cases h2 : y ≤ lm.zero
+    · rw [if_pos h2]; omega
+    · rw [if_neg h2]
+      by_cases h3 : x > y
+      · simp only [h3, if_true]
+        split
+        · omega
+        · split
+          · omega
+          · have := hle (SSVerif.LogAdd.wrap32 (x - y)).toNat
+            omega
+      · simp only [h3, if_false]
+        split
+        · omega
+        · split
+          · omega
+          · have := hle (SSVerif.LogAdd.wrap32 (y - x)).toNat
+            omega
+
+/-- the same for `logmath_add` with the decoder's table: the bound per addition is `t[0] = 6932`
+(`log_1.0001 2` rounded) -/
+theorem C12_int_link_posterior_dec (ok : LatticeOK G L) (sc : Link → Int)
+    (hnu : ∀ p v, Path L L.start p v → SSVerif.LogAdd.cfgDec.lm.zero ≤ (p.map sc).sum)
+    (hnuB : ∀ v q, Path L v q L.final → SSVerif.LogAdd.cfgDec.lm.zero ≤ (q.map sc).sum)
+    (ents : List Link) (hents : ∀ x, x ∈ ents ↔ x ∈ L.links ∧ x.dst = L.final) :
+    let P : IntParams := { ladd := SSVerif.LogAdd.logAdd SSVerif.LogAdd.cfgDec.lm, lz := SSVerif.LogAdd.cfgDec.lm.zero, sc := sc }
+    ∀ l ∈ L.links, alphaInt P L l + betaInt P L l - normInt P (alphaInt P L) ents
+      ≤ 6932 * (L.links.length + addsB L (traverseEdges L) : Nat) := by
+  intro P l hl
+  have ht0 : (SSVerif.LogAdd.tval SSVerif.LogAdd.cfgDec.lm.table 0 : Nat) = 6932 := by decide +kernel
+  have := (C12_int_link_posterior_le ok P (c := 6932) (by decide) (show SSVerif.LogAdd.cfgDec.lm.zero ≤ 0 by decide)
+    (fun x y hx hy => SSVerif.LogAdd.max_le_logAdd SSVerif.LogAdd.cfgDec.lm hx hy)
+    (fun x y => by
+      have := logAdd_le_max_add_t0_all SSVerif.LogAdd.checked_dec.ok x y
+      rw [ht0] at this
+      exact this)
+    hnu hnuB ents hents l hl).1
+  exact this
 
 /-- the association-list passes executed by the driver compute the functions the theorems are about -/
 theorem C12_int_tables_eq (P : IntParams) (L : Lat) :
